@@ -243,11 +243,11 @@ fn reload<B: RealBook>(b: &B, route: u8, scratch: &str) -> Result<B, String> {
         0 => B::from_json(&b.to_json(false)),
         1 => B::from_json(&b.to_json(true)),
         r => {
+            // the same path is written again and again (longer and shorter, pretty and compact
+            // snapshots overwrite one another), as a user saving checkpoints to one file would
             let path = format!("{}/snap-{:?}.json", scratch, std::thread::current().id());
             b.save_file(&path, r == 3)?;
-            let out = B::load_file(&path);
-            let _ = std::fs::remove_file(&path);
-            out
+            B::load_file(&path)
         }
     }
 }
